@@ -134,9 +134,9 @@ def judge(ctx, pid, sc, results, label, stats):
     return good
 
 
-def run_scenario(ctx, pid, exe, sc, label, stats, samples, model=True, nrandom=0, vias=("direct",), hb=False, liveness=True, nproc=8):
+def run_scenario(ctx, pid, exe, sc, label, stats, samples, model=True, nrandom=0, vias=("direct",), hb=False, liveness=True, nproc=8, check=True):
     # 1. exhaustive model checking of the step-level model for this configuration
-    r = check_model(ctx, sc, label, liveness=liveness)
+    r = check_model(ctx, sc, label, liveness=liveness) if check else {"ok": True, "actions_never": []}
     if not r["ok"]:
         # the model itself violates an invariant: this is a statement about the specification, not the code
         raise ToolError("step-level model %s violates %s (specification error)\n%s" % (label, r["violated"], r["output"][-2500:]))
